@@ -209,6 +209,18 @@ ThmStepLocal ==         \* step_fwd(recurse_self=False) skips exactly the subtre
     IN /\ StepFwd(T, x, F, FALSE, 0) = (IF skipF = <<>> THEN 0 ELSE skipF[1])
        /\ StepBack(T, x, F, FALSE, 0) = (IF skipB = <<>> THEN 0 ELSE skipB[1])
 
+ThmStepViaSeq ==        \* the structural moves are exactly "the next node of F in the walk sequence"
+  Idle => \A b \in BOOLEAN :
+    LET pre  == PreD(T, 1, b)
+        ipre == [x \in All |-> PosIn(pre, x)]
+        nt   == NextTab(pre, F)
+        size == [x \in All |-> Cardinality(Desc(T, x))]
+    IN \A x \in All :
+         IF b THEN /\ StepBack(T, x, F, TRUE, 0)  = StepSeq(pre, ipre, nt, x, 0)
+                   /\ StepBack(T, x, F, FALSE, 0) = StepSeq(pre, ipre, nt, x, size[x] - 1)
+              ELSE /\ StepFwd(T, x, F, TRUE, 0)   = StepSeq(pre, ipre, nt, x, 0)
+                   /\ StepFwd(T, x, F, FALSE, 0)  = StepSeq(pre, ipre, nt, x, size[x] - 1)
+
 (* child_path / child_from_path: inverse bijections between nodes and paths   *)
 Paths(a) == {PathOf(T, a, x) : x \in Desc(T, a)}
 ThmPath ==
